@@ -149,7 +149,7 @@ H("streams_max_send_data", ["C05"], "quick", "connection::streams::state::max_se
 _M = [("current", "u16"), ("min_mtu", "u16"), ("enabled", "bool"), ("phase", "u8"), ("peer_max", "u16"), ("cfg_upper", "u16"),
       ("min_change", "u16"), ("lower", "u16"), ("upper", "u16"), ("last_probed", "u16"), ("in_flight", "bool"),
       ("in_flight_pn", "u64"), ("lost", "u8"), ("complete_secs", "u32"), ("interval_secs", "u32"), ("cooldown_secs", "u32"), ("ghost_min_peer", "u16")]
-H("mtud_search_step", ["C13"], "quick", "connection::mtud::search_step",
+H("mtud_search_step", ["C13", "C16"], "quick", "connection::mtud::search_step",
   _M + [("op", "u8"), ("now_secs", "u32"), ("pn", "u64"), ("len", "u16"), ("space", "u8"), ("new_peer_max", "u16")], 8,
   ["reached", "probe retransmitted", "fresh probe size", "no probe", "probe acked: estimate raised", "probe lost", "discovery disabled", "peer limit received", "reset after path change"],
   ["MtuDiscovery::poll_transmit", "EnabledMtuDiscovery::poll_transmit", "SearchState::new", "SearchState::next_mtu_to_probe",
@@ -330,6 +330,9 @@ H("endpoint_connect_failure_native", ["C09"], "replay-only", "endpoint::connect_
   [("x", "u8")], 4, [], ["Endpoint::connect", "Endpoint::new_cid"], "native replay body of E2 query e2_endpoint_connect_cid_leak; demonstration for finding 16")
 H("endpoint_retire_and_drained_native", ["C09", "C08"], "replay-only", "endpoint::retire_and_drained_native",
   [("allow_more", "bool")], 4, [], ["Endpoint::handle_event", "Endpoint::send_new_identifiers", "ConnectionIndex::retire", "ConnectionIndex::remove"], "native replay body of E2 query e2_endpoint_retire_and_drained_events")
+H("token_ip_roundtrip", ["C10", "C14"], "quick", "token::ip_roundtrip",
+  [("v6", "bool"), ("bytes", "[u8; 16]")], 20, ["IPv4", "IPv6"], ["token::encode_ip", "token::decode_ip"],
+  "every IPv4 and every IPv6 address (all 128 bits symbolic, IPv4-mapped ones included)")
 H("token_bloom_fractional_lifetime_native", ["C14"], "replay-only", "token::bloom_fractional_lifetime_native",
   [("x", "u8")], 4, [], ["BloomTokenLog::check_and_insert"], "native replay body of E2 query e2_bloom_period_index (replay workspace builds quinn-proto with its `bloom` feature)")
 H("token_bloom_replay_native", ["C14"], "replay-only", "token::bloom_replay_native",
